@@ -120,11 +120,14 @@ def histnd(b, name, binnings, shape, dtype="int64", cls=None, keep_missed=True, 
                  _dtype=b.dtype(dtype), _meta_data=md, keep_missed=keep_missed)
 
 
-def bins_of(binning):
-    """[(l, r)] view of a binning built by the helpers above (no property evaluation)."""
+def bins_of(binning, n=None):
+    """[(l, r)] view of a binning built by the helpers above (no property evaluation).
+    n: concrete bin count to use when the stored count is a symbolic term (the caller then also states count == n)."""
     cls = typename(binning)
     if cls == "FixedWidthBinning":
         t, w, s, c = attr(binning, "_times_min"), attr(binning, "_bin_width"), attr(binning, "_shift"), attr(binning, "_bin_count")
+        if n is not None:
+            c = n
         return [(grid(t, w, s, i), grid(t, w, s, i + 1)) for i in range(c)]
     if cls == "NumpyBinning" or (attr(binning, "_bins") is None and attr(binning, "_numpy_bins") is not None):
         e = elems(attr(binning, "_numpy_bins"))
@@ -138,3 +141,50 @@ def inbin(bins, k, x, closed_last=True):
     if closed_last and k == len(bins) - 1:
         return And(l <= x, x <= r)
     return And(l <= x, x < r)
+
+
+def same_binning(b0, b1):
+    """same class, same defining data and flags, same bin view; lazily filled caches (_bins, _numpy_bins,
+    _consecutive) may differ as long as they are coherent with the defining data."""
+    if typename(b0) != typename(b1):
+        return False
+    cls = typename(b0)
+    cs = [attr(b0, "_includes_right_edge") == attr(b1, "_includes_right_edge"), attr(b0, "_adaptive") == attr(b1, "_adaptive")]
+    if cls == "FixedWidthBinning":
+        for f in ("_bin_width", "_bin_count", "_shift", "_align"):
+            cs.append(same(attr(b0, f), attr(b1, f)))
+        cs.append(Or(attr(b0, "_bin_count") == 0, same(attr(b0, "_times_min"), attr(b1, "_times_min"))))
+        v1 = bins_of(b1)
+        for cache in ("_bins", "_numpy_bins"):
+            c = attr(b1, cache)
+            if c is not None and not (isarray(c) and shape_of(c)[0] == 0):
+                flat = elems(c)
+                if cache == "_bins":
+                    cs.append(same(flat, [x for p in v1 for x in p]))
+                else:
+                    cs.append(same(flat, ([v1[0][0]] + [p[1] for p in v1]) if v1 else []))
+        return And(*cs)
+    if cls == "ExponentialBinning":
+        for f in ("_log_min", "_log_width", "_bin_count"):
+            cs.append(same(attr(b0, f), attr(b1, f)))
+        return And(*cs)
+    v0, v1 = bins_of(b0), bins_of(b1)
+    if len(v0) != len(v1):
+        return False
+    cs.append(same([x for p in v0 for x in p], [x for p in v1 for x in p]))
+    return And(*cs)
+
+
+def same_hist(h0, h1, stats=True):
+    """every observable of the histogram is unchanged (binning caches excepted)"""
+    b0, b1 = attr(h0, "_binnings"), attr(h1, "_binnings")
+    if len(b0) != len(b1) or typename(h0) != typename(h1):
+        return False
+    cs = [same_binning(x, y) for x, y in zip(b0, b1)]
+    for f in ("_frequencies", "_errors2", "_missed", "_meta_data"):
+        cs.append(same(attr(h0, f), attr(h1, f)))
+    cs.append(attr(h0, "_dtype") == attr(h1, "_dtype"))
+    cs.append(attr(h0, "keep_missed") == attr(h1, "keep_missed"))
+    if stats and has(h0, "_stats"):
+        cs.append(has(h1, "_stats") and same(attr(h0, "_stats"), attr(h1, "_stats")))
+    return And(*cs)
